@@ -1,1 +1,94 @@
-From Verif Require Import Base.
+(* C19 — prefix, NLRI, add-path and MP_REACH/MP_UNREACH decoders are exact. *)
+From Verif Require Import Base Consts Packet Errors Update PacketSpec UpdateSpec PrefixProofs.
+
+(* decoding returns exactly the encoded sequence of (length, address bits) *)
+Theorem c19_prefixes_roundtrip : forall ipv6 ps,
+  forallb (prefix_wf ipv6) ps = true -> decode_prefixes (spec_prefixes_enc ps) ipv6 = Ok ps.
+Proof. exact prefixes_roundtrip. Qed.
+Print Assumptions c19_prefixes_roundtrip.
+
+(* never invents, drops or reorders a route; consumes the whole field *)
+Theorem c19_prefixes_inverse : forall ipv6 b ps,
+  wf_bytes b = true -> decode_prefixes b ipv6 = Ok ps ->
+  forallb (prefix_wf ipv6) ps = true /\ spec_prefixes_enc ps = b.
+Proof. exact prefixes_inverse. Qed.
+Print Assumptions c19_prefixes_inverse.
+
+(* fails exactly when the field is not the encoding of any list of well-formed
+   prefixes (a length octet above 32/128, or the field ends inside an entry) *)
+Theorem c19_prefixes_fail_iff : forall ipv6 b,
+  wf_bytes b = true ->
+  (decode_prefixes b ipv6 = Err tt <-> forall ps, forallb (prefix_wf ipv6) ps = true -> spec_prefixes_enc ps <> b).
+Proof. exact prefixes_fail_iff. Qed.
+Print Assumptions c19_prefixes_fail_iff.
+
+Theorem c19_prefixes_total : forall ipv6 b,
+  wf_bytes b = true -> decode_prefixes b ipv6 <> Panic /\ decode_prefixes b ipv6 <> OutOfFuel.
+Proof. exact prefixes_total. Qed.
+Print Assumptions c19_prefixes_total.
+
+Theorem c19_addpath_roundtrip : forall ipv6 l,
+  forallb (apprefix_wf ipv6) l = true ->
+  decode_ap_prefixes (flat_map spec_apprefix_enc l) ipv6 = Ok l.
+Proof. exact ap_prefixes_roundtrip. Qed.
+Print Assumptions c19_addpath_roundtrip.
+
+Theorem c19_addpath_inverse : forall ipv6 b l,
+  wf_bytes b = true -> decode_ap_prefixes b ipv6 = Ok l ->
+  forallb (apprefix_wf ipv6) l = true /\ flat_map spec_apprefix_enc l = b.
+Proof. exact ap_prefixes_inverse. Qed.
+Print Assumptions c19_addpath_inverse.
+
+Theorem c19_addpath_total : forall ipv6 b,
+  wf_bytes b = true -> decode_ap_prefixes b ipv6 <> Panic /\ decode_ap_prefixes b ipv6 <> OutOfFuel.
+Proof. exact ap_prefixes_total. Qed.
+Print Assumptions c19_addpath_total.
+
+(* failures carry the notification the wrapper assigns (Invalid Network Field for NLRI,
+   plain UPDATE Message Error for withdrawn routes and MP fields) *)
+Theorem c19_wrapper_notifs : forall b ipv6 n l,
+  (map_err (decode_prefixes b ipv6) n = Ok l <-> decode_prefixes b ipv6 = Ok l)
+  /\ (forall n', map_err (decode_prefixes b ipv6) n = Err n' -> n' = n).
+Proof. exact wrapper_notifs. Qed.
+Print Assumptions c19_wrapper_notifs.
+
+(* MP_REACH_NLRI: the callback gets AFI, SAFI, the next hop delimited by the length
+   octet and everything after the reserved octet, iff the attribute is long
+   enough; otherwise no callback and a session-reset-class error *)
+Theorem c19_mp_reach : forall flags b cb,
+  flags < 256 -> blen b < 65536 ->
+  mp_reach flags b cb =
+  Ok (let fe := spec_flag_err 14 flags b (true, false) in
+      match b with
+      | a1 :: a0 :: safi :: nh :: rest =>
+          if nh + 1 <=? blen rest
+          then (Some (MPReach (a1 * 256 + a0) safi (take nh rest) (drop (nh + 1) rest)), join2 fe cb)
+          else (None, join2 fe (Some mp_len_notif))
+      | _ => (None, join2 fe (Some mp_len_notif))
+      end).
+Proof. exact mp_reach_spec. Qed.
+Print Assumptions c19_mp_reach.
+
+Theorem c19_mp_unreach : forall flags b cb,
+  flags < 256 -> blen b < 65536 ->
+  mp_unreach flags b cb =
+  Ok (let fe := spec_flag_err 15 flags b (true, false) in
+      match b with
+      | a1 :: a0 :: safi :: wd => (Some (MPUnreach (a1 * 256 + a0) safi wd), join2 fe cb)
+      | _ => (None, join2 fe (Some mp_len_notif))
+      end).
+Proof. exact mp_unreach_spec. Qed.
+Print Assumptions c19_mp_unreach.
+
+Theorem c19_mp_short_session_reset : forall fe,
+  has_notif_o (join2 fe (Some mp_len_notif)) = true.
+Proof. exact mp_short_is_session_reset. Qed.
+Print Assumptions c19_mp_short_session_reset.
+
+(* IPv6 next hops: 16 or 32 octets only *)
+Theorem c19_ipv6_nexthops : forall nh,
+  (blen nh = 16 \/ blen nh = 32 ->
+     exists l, decode_ipv6_nexthops nh = Ok l /\ concat l = nh /\ Forall (fun a => blen a = 16) l)
+  /\ (blen nh <> 16 -> blen nh <> 32 -> decode_ipv6_nexthops nh = Err (mkNotif 3 0 [])).
+Proof. exact ipv6_nexthops_spec. Qed.
+Print Assumptions c19_ipv6_nexthops.
